@@ -137,3 +137,94 @@ Example C09_example_hyps :
   lookup (final_fs (w9_run tables_pinned [w9_K2; w9_K1] fs [])) [97%N] = Some [1%N; 6%N] /\
   lookup (final_fs (w9_run tables_pinned [w9_K2; w9_K1] fs [])) [98%N] = Some [2%N].
 Proof. vm_compute. repeat split; try reflexivity; repeat constructor; simpl; intuition discriminate. Qed.
+
+(* ------------------------------------------------------------------------------------------------------------------ *)
+(** ** H_stores_reparse discharged for the modelled manifest writers (added by the C14 engineer;
+    Model/ManifestRun.v, Proofs/ManifestNames.v, Proofs/ManifestReparse.v, Proofs/ManifestReparseInst.v).
+    The writer oracle is [W_manifest] (the requirements.txt / setup.cfg line surgery of Model/Manifest.v, C14) and the
+    stores of a fresh invocation are read off the manifests by the parser model ([pstores_of covers_m names_m ms]):
+      - requirements.txt: a store is offered for a non-empty text whose only line boundary is "\n"; the names are
+        str.splitlines + _clean_lines + packaging on every cleaned line.  The ONLY oracle fact used is
+        [line_contract]: packaging parses a requirement line the writer appends back to the name it was written for
+        (no line boundary inside, not dropped by _clean_lines) - tested by harness/c14.py on every dependency;
+      - setup.cfg: the names come from configparser + packaging, so "the writer can update every store the parser
+        offers" and "a fresh parse sees the old names followed by the written ones" stay the two explicit premises
+        [Hcfg_writable] / [Hcfg_names] (take [cfg_covers := fun _ => false] for projects without setup.cfg: see
+        C09_stores_reparse_requirements_txt);
+      - pyproject.toml / setup.py: no store is offered by this model - NOTHING is proved for them.
+    Needed besides: a real run ([dry_run = false]: in a dry run `add` records the names but nothing is written),
+    distinct manifest paths, and no manifest among the files a codemod may rewrite. *)
+From CM Require Import Base.Types_Manifest Model.ManifestRun Proofs.ManifestNames Proofs.ManifestReparse Proofs.ManifestReparseInst
+  Proofs.RunWritesFacts.
+
+Theorem C09_stores_reparse_manifest :
+  forall matcher line_of defined_of (lv : cfg_last_line) req_cname cfg_covers cfg_names,
+    (forall n, line_contract req_cname line_of n = true) ->
+    (forall b ds, cfg_covers b = true -> ds <> [] -> exists r, W_manifest matcher line_of defined_of lv SSetupCfg (Some b) ds = Some r) ->
+    (forall b ds b' d chs, cfg_covers b = true -> W_manifest matcher line_of defined_of lv SSetupCfg (Some b) ds = Some (b', d, chs) ->
+                           cfg_covers b' = true /\ cfg_names b' = cfg_names b ++ ds) ->
+    forall (tb : run_tables) (tree : Type) parse code T S R diff fsel (cfg : config) (ms : list (skind * path)),
+      dry_run cfg = false -> NoDup (map snd ms) ->
+      (forall K p, In p (map snd ms) -> ~ In p (scope fsel cfg K)) ->
+      forall Ks, stores_reparse tb tree parse code T S R diff (W_manifest matcher line_of defined_of lv) fsel cfg
+                                (pstores_of (covers_m cfg_covers) (names_m req_cname cfg_names) ms) Ks.
+Proof.
+  intros matcher line_of defined_of lv req_cname cfg_covers cfg_names Hl Hw Hn tb tree parse code T S R diff fsel cfg ms.
+  exact (stores_reparse_manifest matcher line_of defined_of lv req_cname cfg_covers cfg_names Hl Hw Hn tb tree parse code T S R diff fsel cfg ms).
+Qed.
+Print Assumptions C09_stores_reparse_manifest.
+
+(** projects whose manifests are requirements.txt files: no premise about the stores is left *)
+Theorem C09_stores_reparse_requirements_txt :
+  forall matcher line_of defined_of (lv : cfg_last_line) req_cname,
+    (forall n, line_contract req_cname line_of n = true) ->
+    forall (tb : run_tables) (tree : Type) parse code T S R diff fsel (cfg : config) (ms : list (skind * path)),
+      dry_run cfg = false -> NoDup (map snd ms) ->
+      (forall K p, In p (map snd ms) -> ~ In p (scope fsel cfg K)) ->
+      forall Ks, stores_reparse tb tree parse code T S R diff (W_manifest matcher line_of defined_of lv) fsel cfg
+                                (pstores_of (covers_m (fun _ => false)) (names_m req_cname (fun _ => [])) ms) Ks.
+Proof.
+  intros matcher line_of defined_of lv req_cname Hl.
+  apply (C09_stores_reparse_manifest matcher line_of defined_of lv req_cname (fun _ => false) (fun _ => [])); [exact Hl| |]; intros; discriminate.
+Qed.
+Print Assumptions C09_stores_reparse_requirements_txt.
+
+(** [C09_batch_eq_chain_conditional] with H_stores_reparse discharged (H_prefilter_stable remains its premise) *)
+Theorem C09_batch_eq_chain_manifest :
+  forall matcher line_of defined_of (lv : cfg_last_line) req_cname,
+    (forall n, line_contract req_cname line_of n = true) ->
+    forall (tb : run_tables) (tree : Type) parse code T S R diff fsel (cfg : config) (ms : list (skind * path))
+           (Ks : list codemod) (fs : fsys),
+      let W := W_manifest matcher line_of defined_of lv in
+      let pstores := pstores_of (covers_m (fun _ => false)) (names_m req_cname (fun _ => [])) ms in
+      dry_run cfg = false -> NoDup (map snd ms) ->
+      (forall K p, In p (map snd ms) -> ~ In p (scope fsel cfg K)) ->
+      all_files cfg <> [] -> NoDup (map cid Ks) ->
+      (forall K, In K Ks -> tries_present tb (cpipe K) = true) ->
+      prefilter_stable tb tree parse code T S R diff W fsel cfg pstores (prefilter_of S cfg Ks fs) Ks fs ->
+      exists s',
+        run tb tree parse code T S R diff W fsel cfg Ks fs (pstores fs) = Run.Ok s' /\
+        s_fs s' = chain_fs tb tree parse code T S R diff W fsel cfg pstores Ks fs /\
+        Forall2 (fun K r => exists t, r = Run.Ok t /\ row_of K s' = row_of K t) Ks
+                (chain tb tree parse code T S R diff W fsel cfg pstores Ks fs).
+Proof.
+  intros matcher line_of defined_of lv req_cname Hl tb tree parse code T S R diff fsel cfg ms Ks fs W pstores Hdry Hnd Hsc Hall HndK Ht Hpre.
+  apply C09_batch_eq_chain_conditional; auto.
+  apply (C09_stores_reparse_requirements_txt matcher line_of defined_of lv req_cname Hl); assumption.
+Qed.
+Print Assumptions C09_batch_eq_chain_manifest.
+
+(** Non-vacuity: a requirements.txt the parser model offers, the dependency line contract for a concrete oracle, and the
+    store a fresh parse gives before and after the write. *)
+Example C09_stores_reparse_example :
+  let line_of := fun n : str => n ++ [61; 61; 49]%N in                       (* n ++ "==1" *)
+  let req_cname := fun l : str => Some (Manifest.before_char 61 l) in         (* the text before "=" *)
+  let text := [102; 111; 111; 61; 61; 50; 10; 98; 97; 114]%N in               (* "foo==2\nbar" *)
+  let sec := [115; 101; 99]%N in                                              (* "sec" *)
+  line_contract req_cname line_of sec = true /\
+  covers_m (fun _ => false) SReqTxt text = true /\
+  names_req req_cname text = [[102; 111; 111]%N; [98; 97; 114]%N] /\
+  (forall matcher, exists b' d chs,
+      W_manifest matcher line_of (fun _ => None) LastLineTerminated SReqTxt (Some text) [sec] = Some (b', d, chs) /\
+      names_req req_cname b' = [[102; 111; 111]%N; [98; 97; 114]%N; sec]).
+Proof. vm_compute. repeat split. intros matcher. eexists; eexists; eexists. split; reflexivity. Qed.
